@@ -55,6 +55,12 @@ Ireland numbers are prefixed with xi of United Kingdom numbers."""
 
 _country_modules = dict()
 
+
+# verification hooks (off unless STDNUM_VERIF is set, see /verif/DESIGN.md)
+_vh = None
+if __import__('os').environ.get('STDNUM_VERIF'):  # pragma: no cover
+    import stdnum_verif_hooks as _vh
+
 vies_wsdl = 'https://ec.europa.eu/taxation_customs/vies/checkVatService.wsdl'
 """The WSDL URL of the VAT Information Exchange System (VIES)."""
 
@@ -71,8 +77,12 @@ def _get_cc_module(cc):
         return
     if cc == 'xi':
         cc = 'gb'
+    if _vh: _vh.event('eu.vat', 'enter', cc)  # pragma: no cover
     if cc not in _country_modules:
+        if _vh: _vh.event('eu.vat', 'miss', cc)  # pragma: no cover
         _country_modules[cc] = get_cc_module(cc, 'vat')
+        if _vh: _vh.event('eu.vat', 'store', cc, _country_modules[cc])  # pragma: no cover
+    if _vh: _vh.event('eu.vat', 'ret', cc, _country_modules[cc])  # pragma: no cover
     return _country_modules[cc]
 
 
